@@ -133,6 +133,10 @@ impl KeyMap {
             id.push(if last == '0' { '1' } else { '0' });
             return id;
         }
+        // "<name>^": <name>'s identifier spelt with upper-case hexadecimal letters (another identifier)
+        if let Some(base) = name.strip_suffix('^') {
+            return self.idstr(base).to_uppercase();
+        }
         kid_str(self.pk(name).key_id())
     }
     /// abstract name of a concrete key id (or the id itself when unknown)
